@@ -243,7 +243,11 @@ func (elem *DataElement) ToDict() map[string]interface{} {
 	if elem.From != "" {
 		out["from"] = elem.From
 	}
-	out["data"] = elem.Data
+	if elem.Data != nil {
+		// an element whose data was not loaded keeps the empty map: writing through a nil
+		// map (set, increment, unwind) panics
+		out["data"] = elem.Data
+	}
 	return out
 }
 
